@@ -84,6 +84,25 @@ def generate(g, tier):
         for f in forms:
             cases.append(dict(op='compile', src=dict(text='\n'.join(pre) + '\n' + f + '\n$STRING "end="+x'),
                               meta=dict(family='grouped-run', exp=['ok', exp + [f'STRING end={x}'], [], None])))
+    # arguments of any magnitude are bound as they are (an integer of thousands of digits that the body never prints)
+    for big in ('7*10^5000', '10^4400', '2^20000', '0-10^5000'):
+        for body, out in (('    STRING ok', ['STRING ok']), ('    IF a > 0\n        STRING pos\n    ELSE\n        STRING neg', ['STRING neg' if big.startswith('0-') else 'STRING pos']),
+                          ('    $STRING b', ['STRING 1']), ('    VAR c a\n    STRING kept', ['STRING kept'])):
+            t = f'FUNC f a,b\n{body}\nRUN f {big},1\nSTRING end'
+            cases.append(dict(op='compile', src=dict(text=t), meta=dict(family='huge-arg', exp=['ok', out + ['STRING end'], [], None])))
+    # a file imported inside a block: the functions it defines are visible in the block and gone after it, like any other
+    # definition made there — whatever was defined before the block
+    for kw in ('START', 'STARTENV'):
+        for blk in ('IF TRUE', 'REPEAT 1', 'WHILE w7,w7<1', 'FUNC wrap'):
+            for pre in ('', 'FUNC early\n    STRING early\n', 'FUNC f\n    STRING outer-f\n'):
+                call = '\nRUN wrap' if blk.startswith('FUNC') else ''
+                lib = 'FUNC f\n    STRING lib-f\nFUNC g\n    STRING lib-g'
+                main = f'{pre}{blk}\n    {kw} lib\n    RUN f\n    RUN g{call}\nRUN f\nSTRING end'
+                if 'outer-f' in pre: exp = ['ok', ['STRING lib-f', 'STRING lib-g', 'STRING outer-f', 'STRING end'], [], None]
+                else: exp = ['err', 'undefined']
+                cases.append(dict(op='compile_file', file='proj/main.txt', files={'proj/main.txt': main, 'proj/lib.txt': lib}, meta=dict(family='import-in-block', exp=exp)))
+                main2 = f'{pre}{blk}\n    {kw} lib{call}\nRUN g\nSTRING end'
+                cases.append(dict(op='compile_file', file='proj/main.txt', files={'proj/main.txt': main2, 'proj/lib.txt': lib}, meta=dict(family='import-in-block', exp=['err', 'undefined'])))
     return cases
 
 
